@@ -61,7 +61,19 @@ func genC20(r *prng) *plan {
 }
 
 // c20BigKeys: the pre-computed keys for the low buckets of one fixed victim (see cmd/c20keys), or nil.
-func c20BigKeys() (victim *ecdsa.PrivateKey, byDist map[int][]*ecdsa.PrivateKey) {
+var c20KeysLoaded bool
+var c20KeysVictim *ecdsa.PrivateKey
+var c20KeysByDist map[int][]*ecdsa.PrivateKey
+
+func c20BigKeys() (*ecdsa.PrivateKey, map[int][]*ecdsa.PrivateKey) {
+	if !c20KeysLoaded {
+		c20KeysLoaded = true
+		c20KeysVictim, c20KeysByDist = c20ReadKeys()
+	}
+	return c20KeysVictim, c20KeysByDist
+}
+
+func c20ReadKeys() (victim *ecdsa.PrivateKey, byDist map[int][]*ecdsa.PrivateKey) {
 	dir := os.Getenv("VERIF_DIR")
 	if dir == "" {
 		dir = "/verif"
